@@ -731,9 +731,16 @@ val presp : resp -> string list
 
 val pqres : qres -> string
 
+type follow = { fo_on : bool; fo_adopt : bool; fo_seen : bool; fo_acc : state }
+
 type rstate = { rs_st : state; rs_markers : (string * mkind) list;
                 rs_attrs : (string * string list) list; rs_crate : string;
-                rs_version : string; rs_self : string; rs_fix : fixes }
+                rs_version : string; rs_self : string; rs_fix : fixes;
+                rs_follow : follow }
+
+val mkrs :
+  state -> (string * mkind) list -> (string * string list) list -> string ->
+  string -> string -> fixes -> rstate
 
 val no_upper : string -> bool
 
@@ -741,9 +748,11 @@ val mock_addr_ok : string -> bool
 
 val env_of : rstate -> env
 
-val init_rstate : fixes -> rstate
+val init_rstate : fixes -> bool -> rstate
 
 val with_st : rstate -> state -> rstate
+
+val with_follow : rstate -> follow -> rstate
 
 val dmarker : string -> (string * mkind) option
 
@@ -775,6 +784,10 @@ val finish :
 val strip_ev : string -> string
 
 val is_trace_kw : string -> bool
+
+val step_line : rstate -> string -> rstate * string list
+
+val adoptable : string -> bool
 
 val run_line : rstate -> string -> rstate * string list
 
